@@ -40,13 +40,13 @@ ALPHABET = {
     "initial_guess": {"none": "None (default seed, read back from a call with an all-zero matrix)", "zero": 0.0,
                       "one": "int 1", "array": X0_ARRAY, "fixed-point family": "x* in {0,1,2}^n \\ {0} with b = W x*"},
     "relaxation": {"all": RELAX, "extra for W with <= 4 entries": RELAX_SMALL_EXTRA}, "max_iterations": MAX_ITER, "conv_tol": CONV_TOL,
-    "(beta_laplace, laplacian)": CONSTR, "alpha": {"W with <= 6 entries": ALPHA, "3x3": ALPHA["quick"]}, "tikhonov_matrix": TIKHONOV,
+    "(beta_laplace, laplacian)": {"W with <= 4 entries": CONSTR, "larger W": CONSTR["quick"]}, "alpha": {"W with <= 6 entries": ALPHA, "3x3": ALPHA["quick"]}, "tikhonov_matrix": TIKHONOV,
     "3x3 (thorough) reduced product": REDUCED,
 }
 BOUND = {
     "quick": "all W of shapes <= 6 entries over {0,1,2}; full parameter product; SART followed for up to 7 iterations",
     "thorough": "all W of shapes <= 6 entries (plus 1x3, 3x1) over {0,1,2,5} with the full parameter product, max_iterations 0..12, "
-                "all four (beta, L) pairs, relaxation 1.5 for W with <= 4 entries, alpha 10; all 3x3 W over {0,1,2} with the reduced "
+                "all four (beta, L) pairs and relaxation 1.5 for W with <= 4 entries, alpha 10; all 3x3 W over {0,1,2} with the reduced "
                 "product (SART family) / quick alpha set and all Tikhonov matrices (NNLS, LSQ, SVD)",
 }
 RULE = ("one case per (family, W); inside a case every measurement vector and every parameter combination is executed on the "
@@ -226,7 +226,7 @@ def _run_sart(case):
     if profile == "full":
         x0_kinds, relaxes = X0_KINDS, RELAX[tier] + (RELAX_SMALL_EXTRA[tier] if m * n <= 4 else ())
         stops = [(mi, tol) for mi in MAX_ITER[tier] for tol in CONV_TOL if not (mi <= 1 and tol != CONV_TOL[0])]
-        constr = CONSTR[tier]
+        constr = CONSTR[tier] if m * n <= 4 else CONSTR["quick"]      # the 4th (beta=0, L=0) pair only for small W
     else:
         x0_kinds, relaxes, stops, constr = REDUCED["x0"], REDUCED["relax"], list(REDUCED["stops"]), REDUCED["constr"]
 
@@ -540,7 +540,14 @@ def _run_lsq(case):
                         else:
                             rn = float(np.sqrt(((C @ x - d) ** 2).sum()))
                             if not abs(float(norm) - rn) <= 1e-9 * (resid_scale * (1.0 + float(np.sqrt(x @ x)))):
-                                _V(viol, "nnls:%s:residual-norm" % bclass, "invert_regularised_nnls%s: reported norm != |Cx-d|" % desc, rn, float(norm))
+                                if _scipy_nnls_itself_wrong(C, d, float(b.max()), x, cert, norm=float(norm)):
+                                    # attribution only: scipy's own rnorm is inconsistent with scipy's own x (same x, same norm)
+                                    _bump(cl, "nnls:scipy-nnls-itself-wrong")
+                                    _V(viol, "nnls:relays-scipy-nnls-rnorm-that-is-inconsistent-with-x",
+                                       "invert_regularised_nnls%s: reported norm != |Cx-d| for the returned (optimal) x; scipy.optimize.nnls called "
+                                       "directly on [W; alpha L]/max(b), [b; 0]/max(b) returns the same x and the same inconsistent rnorm" % desc, rn, float(norm))
+                                else:
+                                    _V(viol, "nnls:%s:residual-norm" % bclass, "invert_regularised_nnls%s: reported norm != |Cx-d|" % desc, rn, float(norm))
                             g = C.T @ (C @ x - d)
                             if ((x == 0) & (g > cert.grad_tol(C, d, x) + 1e-12)).any():
                                 _bump(cl, "nnls:constraint-active")
@@ -592,20 +599,26 @@ def _run_lsq(case):
             "outcome": ("lsq", wkey, len(viol), cl.get("nnls:constraint-active", 0), cl.get("lstsq:negative-component", 0))}
 
 
-def _scipy_nnls_itself_wrong(C, d, vmax, x, cert):
-    """True iff scipy.optimize.nnls, called directly on the documented system ("w_matrix, b_vector and alpha*tikhonov_matrix are
-    normalised by max(b_vector) before passing them to scipy.optimize.nnls"), returns the vector x that the wrapper returned and
-    that vector fails the KKT certificate.  Used only to *label* a failed certificate (upstream solver vs. cherab wrapper), never
-    to obtain an expected value."""
+def _scipy_nnls_itself_wrong(C, d, vmax, x, cert, norm=None):
+    """Attribution of a failed NNLS certificate (upstream solver vs. cherab wrapper); never used to obtain an expected value.
+    scipy.optimize.nnls is called directly on the documented system ("w_matrix, b_vector and alpha*tikhonov_matrix are normalised
+    by max(b_vector) before passing them to scipy.optimize.nnls").
+    norm is None: True iff scipy returns the vector x that the wrapper returned and that vector fails the KKT certificate.
+    norm given  : True iff scipy returns the same x and the same norm (rnorm*max(b)), and that norm is not |Cx-d|."""
     import numpy as np
     import scipy.optimize
     if not vmax > 0:
         return False
     try:
-        xs, _ = scipy.optimize.nnls(C / vmax, d / vmax)
+        xs, rs = scipy.optimize.nnls(C / vmax, d / vmax)
     except Exception:  # noqa
         return False
-    return bool(np.allclose(xs, x, rtol=1e-9, atol=1e-12)) and cert.kkt_nnls(C, d, xs) is not None
+    if not np.allclose(xs, x, rtol=1e-9, atol=1e-12):
+        return False
+    if norm is None:
+        return cert.kkt_nnls(C, d, xs) is not None
+    true = float(np.sqrt(((C @ xs - d) ** 2).sum()))
+    return abs(rs * vmax - norm) <= 1e-12 * (1.0 + abs(norm)) and abs(rs * vmax - true) > 1e-9 * (1.0 + true)
 
 
 def run_case(case):
